@@ -430,6 +430,7 @@ impl BytecodeBuilder {
                 | Op::RunClassInitializers { .. }
                 | Op::ExportBinding { .. }
                 | Op::ExportNamespace { .. }
+                | Op::ExportAll { .. }
                 | Op::ReExport { .. }
                 | Op::SetFunctionName { .. }
                 | Op::PopIterTry
